@@ -1567,6 +1567,13 @@ var shapeTargets = []shapeTarget{
 	{"internal/transfer", "RecvManifestMultiStream", "", "assign:registered", "filewait_ready_pred"},
 	{"internal/transfer", "RecvManifestMultiStream", "", "args:fileReady.signal", "filewait_signal_args"},
 	{"internal/transfer", "RecvManifestMultiStream", "", "seq:stateByKey[key] = state|fileReady.signal(key)|state := stateByKey[fileKey]|verifhook.Point(\"recv.reader.before_wait\", fileKey)", "filewait_order"},
+	// file scheduler: aging and the pending filters (Model/Sched has no clock)
+	{"internal/scheduler", "effectiveClass", "HybridScheduler", "body-stmts", "sched_effective_class"},
+	{"internal/scheduler", "pendingByClass", "HybridScheduler", "if-all", "sched_pending_small_ifs"},
+	{"internal/scheduler", "pendingWeighted", "HybridScheduler", "if-all", "sched_pending_weighted_ifs"},
+	// finalisation gate of the receiver (Model/Once)
+	{"internal/transfer", "RecvManifestMultiStream", "", "closure-head:finalizeFile:4", "finalize_gate"},
+	{"internal/transfer", "RecvManifestMultiStream", "", "seq:state.done = true|completedCount++|s.done = true", "finalize_done_sets"},
 	// resume negotiation (Model/Resume): the sender's plan and the receiver's report
 	{"internal/transfer", "SendManifestMultiStream", "", "assign:forceSendFrom", "plan_force_assigns"},
 	{"internal/transfer", "SendManifestMultiStream", "", "if-cond-has:forceSendFrom", "plan_force_ifs"},
@@ -1702,6 +1709,34 @@ func (w *world) shapesIn(body *ast.BlockStmt, sel string) []string {
 		}
 		return res
 	}
+	if strings.HasPrefix(sel, "closure-head:") {
+		// the first N statements of the function literal assigned to the named variable, one line of source text each
+		parts := strings.Split(sel, ":")
+		if len(parts) != 3 {
+			return nil
+		}
+		limit, _ := strconv.Atoi(parts[2])
+		ast.Inspect(body, func(n ast.Node) bool {
+			as, ok := n.(*ast.AssignStmt)
+			if !ok || len(as.Lhs) != 1 || len(as.Rhs) != 1 || w.exprText(as.Lhs[0]) != parts[1] {
+				return true
+			}
+			fl, ok := as.Rhs[0].(*ast.FuncLit)
+			if !ok {
+				return true
+			}
+			for i, st := range fl.Body.List {
+				if i >= limit {
+					break
+				}
+				var buf bytes.Buffer
+				printer.Fprint(&buf, w.fset, st)
+				res = append(res, strings.Join(strings.Fields(buf.String()), " "))
+			}
+			return false
+		})
+		return res
+	}
 	var stack []ast.Node
 	conds := func() string {
 		var cs []string
@@ -1753,7 +1788,7 @@ func (w *world) shapesIn(body *ast.BlockStmt, sel string) []string {
 		case strings.HasPrefix(sel, "seq:"):
 			// simple statements whose text is one of the given ones, in source order
 			switch n.(type) {
-			case *ast.AssignStmt, *ast.ExprStmt, *ast.DeferStmt:
+			case *ast.AssignStmt, *ast.ExprStmt, *ast.DeferStmt, *ast.IncDecStmt:
 				var buf bytes.Buffer
 				printer.Fprint(&buf, w.fset, n)
 				for _, want := range strings.Split(sel[4:], "|") {
